@@ -6,10 +6,13 @@ import (
 	"crypto/sha256"
 	"crypto/sha512"
 	"encoding/base32"
+	"encoding/base64"
 	"encoding/hex"
 	"fmt"
+	"io"
 	"math/big"
 	"strings"
+	"testing/iotest"
 	"time"
 
 	"github.com/miekg/dns"
@@ -281,6 +284,93 @@ func runC17(c *Ctx) {
 				}
 			}
 			c.Pred("keys", "key-export-import", in, ok, detail, "sign/verify interchangeably", true)
+			// the same text through ReadPrivateKey, with and without the final line feed, from readers of both kinds
+			for vi, src := range []io.Reader{strings.NewReader(txt), strings.NewReader(strings.TrimRight(txt, "\n")),
+				iotest.OneByteReader(strings.NewReader(txt)), iotest.OneByteReader(strings.NewReader(strings.TrimRight(txt, "\n")))} {
+				pk, err := key.ReadPrivateKey(src, "Kexample.org.private")
+				res := "ok"
+				if err != nil {
+					res = "read: " + err.Error()
+				} else if signer, _ := pk.(crypto.Signer); signer == nil {
+					res = "not a signer"
+				} else {
+					sig := &dns.RRSIG{Hdr: dns.RR_Header{Name: "a.example.org.", Rrtype: dns.TypeRRSIG, Class: 1, Ttl: 60}, Algorithm: ks.alg, SignerName: "example.org.",
+						KeyTag: key.KeyTag(), Inception: uint32(time.Now().Unix() - 1000), Expiration: uint32(time.Now().Unix() + 1000)}
+					if err := guard(func() string {
+						if e := sig.Sign(signer, set); e != nil {
+							return "sign: " + e.Error()
+						}
+						if e := sig.Verify(key, set); e != nil {
+							return "verify: " + e.Error()
+						}
+						return "ok"
+					}); err != "ok" {
+						res = err
+					}
+				}
+				c.Pred("keys", "key-read-from-text", fmt.Sprintf("%s variant=%d", in, vi), res == "ok", res, "a key that signs for this DNSKEY", true)
+			}
+		}
+	}
+	// 6. two keys of one owner and algorithm whose key tags collide are still two keys: a signature verifies under the
+	//    key that made it and under no other, in whatever order the keys are used
+	for k := 0; k < c.Scale(2, 8); k++ {
+		for _, alg := range []uint8{dns.RSASHA256, dns.RSASHA512, dns.ECDSAP256SHA256, dns.ED25519} {
+			for order := 0; order < 2; order++ {
+				owner := fmt.Sprintf("k%d-%d-%d.example.org.", k, alg, order)
+				key := &dns.DNSKEY{Hdr: dns.RR_Header{Name: owner, Rrtype: dns.TypeDNSKEY, Class: 1, Ttl: 3600}, Flags: 256, Protocol: 3, Algorithm: alg}
+				bits := 256
+				if alg == dns.RSASHA256 || alg == dns.RSASHA512 {
+					bits = 1024
+				}
+				priv, err := key.Generate(bits)
+				if err != nil {
+					continue
+				}
+				// the twin: two octets of the public key changed so that the tag stays the same
+				pkb, _ := base64.StdEncoding.DecodeString(key.PublicKey)
+				i1, i2 := -1, -1
+				for i := 8; i+1 < len(pkb) && (i1 < 0 || i2 < 0); i += 2 {
+					if i1 < 0 && pkb[i] < 255 {
+						i1 = i
+					} else if i2 < 0 && pkb[i] > 0 {
+						i2 = i
+					}
+				}
+				if i1 < 0 || i2 < 0 {
+					continue
+				}
+				pkb[i1]++
+				pkb[i2]--
+				twin := dns.Copy(key).(*dns.DNSKEY)
+				twin.PublicKey = base64.StdEncoding.EncodeToString(pkb)
+				in := fmt.Sprintf("alg=%d owner=%s", alg, owner)
+				c.Pred("keys", "twin-has-same-tag", in, twin.KeyTag() == key.KeyTag(), fmt.Sprint(twin.KeyTag()), fmt.Sprint(key.KeyTag()), true)
+				set := []dns.RR{&dns.A{Hdr: dns.RR_Header{Name: "a." + owner, Rrtype: dns.TypeA, Class: 1, Ttl: 60}, A: []byte{192, 0, 2, 7}}}
+				sig := &dns.RRSIG{Hdr: dns.RR_Header{Name: "a." + owner, Rrtype: dns.TypeRRSIG, Class: 1, Ttl: 60}, Algorithm: alg, SignerName: owner,
+					KeyTag: key.KeyTag(), Inception: uint32(time.Now().Unix() - 1000), Expiration: uint32(time.Now().Unix() + 1000)}
+				if err := sig.Sign(priv.(crypto.Signer), set); err != nil {
+					continue
+				}
+				ver := func(k *dns.DNSKEY) bool {
+					return guard(func() string {
+						if sig.Verify(k, set) == nil {
+							return "ok"
+						}
+						return "err"
+					}) == "ok"
+				}
+				var own, other bool
+				if order == 0 {
+					own = ver(key)
+					other = ver(twin)
+				} else {
+					other = ver(twin)
+					own = ver(key)
+				}
+				c.Pred("keys", "verifies-under-its-key", fmt.Sprintf("%s order=%d", in, order), own, "rejected", "accepted", true)
+				c.Pred("keys", "rejected-under-colliding-key", fmt.Sprintf("%s order=%d", in, order), !other, "accepted", "rejected", true)
+			}
 		}
 	}
 }
